@@ -204,11 +204,11 @@ def cmd_run(pid, tier, seed):
             exhaustive=all(r['exhaustive'] for r in results) and not errors,
             obligations=sum(r['obligations'] for r in results),
             discharged=sum(r['discharged'] for r in results),
-            jobs=[dict(template=r['template'], cfg=r['cfg'], regions=r['regions'], exhaustive=r['exhaustive'], frontier=r['frontier'],
+            jobs=[dict(template=r['template'], cfg=_short(r['cfg']), regions=r['regions'], exhaustive=r['exhaustive'], frontier=r['frontier'],
                        closure=r.get('closure'), branch_queries=r['branch_queries'], other_queries=r['other_queries'],
                        solver_s=r['solver_s'], wall_s=r['wall_s'], witnesses=r['witnesses'], hangs=r['hangs'],
                        classes=r['n_classes'], horizon=r['horizon']) for r in results],
-            bounds={r['job']: r['decls'] for r in results},
+            bounds={(r['template'] + ' ' + json.dumps(_short(r['cfg']), sort_keys=True, default=str)): r['decls'] for r in results},
             clauses=clause_tot,
             functions_encoded=funcs,
             queries=dict(branch=sum(r['branch_queries'] for r in results), obligation_and_attribution=sum(r['other_queries'] for r in results),
@@ -242,7 +242,11 @@ def cmd_run(pid, tier, seed):
 
 def _short(cfg):
     if isinstance(cfg, dict) and 'scenario' in cfg:
-        return {'scenario': cfg['scenario'], 'order': cfg.get('order')}
+        out = {'scenario': cfg['scenario'], 'order': cfg.get('order')}
+        for k in ('box', 'parallel', 'timeouts', 'max_history', 'wal', 'plain_buses'):
+            if cfg.get(k):
+                out[k] = cfg[k]
+        return out
     return cfg
 
 
